@@ -1,7 +1,7 @@
 """C09 — the control-flow graph matches x86 control flow."""
 
 def run(ctx):
-    if not ctx.build_harness():
+    if not ctx.build_harness(['c09.go']):
         return
     ctx.forbidden_scan()
     if not ctx.build_driver():
